@@ -10,7 +10,10 @@ PROP = dict(
                     "exactly once from the list heads, prev/parent agree with the way of reaching, children pointer is a list head), parent and "
                     "list membership are compared with a set model, destroyed subtrees must have released every value exactly once and freed the "
                     "node, clones are compared recursively (name, value bytes, child order, parent links) incl. refused value clones.  "
-                    "Exploration, not proof; positions inside a list are adopted from the library, not asserted."),
+                    "Exploration, not proof; positions inside a list are adopted from the library, not asserted.  A C++ leg (60k / 1M histories) "
+                    "does the same walk over the survivors after every constructor/destructor/link operation on mpt::node objects of all storage "
+                    "classes (a destroyed object is never dereferenced: pointers are compared, its storage is freed or poisoned) and counts value "
+                    "references against holders."),
         level_note=("trusts the walker/membership model in harness/c14_node.c, gcc ASan/UBSan/LSan (LSan is only the secondary release oracle); "
                     "merge semantics of mpt_node_move/mpt_parse_node (which nodes move) are adopted, only structure, conservation and release are asserted"),
         legs=[dict(name="c14_node", src=["c14_node.c"], libs=["mptcore"], batch=512, lsan=True,
@@ -27,7 +30,20 @@ PROP = dict(
                            "outcome:destroy-refused": 5000, "outcome:clone-refused-clean": 3000,
                            "monitor:structure-walks": 1000000, "monitor:membership-compares": 1000000,
                            "monitor:release-witnessed": 200000, "monitor:clone-node-compares": 100000,
-                           "monitor:final-release-audits": 100000, "history:reached-depth2": 50000})],
+                           "monitor:final-release-audits": 100000, "history:reached-depth2": 50000}),
+              dict(name="c14_cxx", src=["c14_cxx.cpp"], libs=["mpt++", "mptio", "mptplot", "mptcore"], batch=512, lsan=True,
+                   floors={"node::~node": 200000, "node::~node:scope-exit": 50000, "node::node": 100000, "node::node:automatic": 50000,
+                           "node::create(name)": 50000, "node::create(size)": 50000, "mpt_node_new": 50000,
+                           "node::set_metatype": 100000, "node::operator=": 30000, "node::data": 10000,
+                           "mpt_node_clear": 10000, "mpt_node_destroy": 10000, "mpt_node_unlink": 30000,
+                           "state:dtor-in-parentless-list": 100000,
+                           "state:dtor-toplevel-head": 30000, "state:dtor-toplevel-middle": 10000, "state:dtor-toplevel-tail": 30000,
+                           "state:dtor-child-head": 5000, "state:dtor-child-middle": 1000, "state:dtor-child-tail": 5000,
+                           "state:scope-toplevel-head": 10000, "state:scope-toplevel-middle": 10000, "state:scope-toplevel-tail": 10000,
+                           "state:scope-child-head": 5000, "state:scope-child-middle": 2000, "state:scope-child-tail": 2000,
+                           "state:dtor-with-children": 10000, "state:shared-value": 5000,
+                           "monitor:structure-walks": 1000000, "monitor:release-witnessed": 300000,
+                           "monitor:final-release-audits": 30000})],
         rule=("case = one PRNG history: 2..6 initial nodes, then 15..70 (thorough: 110) operations drawn from node_new, gnode_after/before, "
               "gnode_add/node_add (positions 0, +-1..3, +-5, +-100), gnode_insert/node_insert, node_unlink, node_destroy (linked and unlinked), "
               "node_clear, node_clone/list_clone/tree_clone (1 in 6 with a value that refuses to be cloned), node_move between disjoint lists "
@@ -35,7 +51,12 @@ PROP = dict(
               "node_locate/next/find, gnode_pos, gnode_traverse (4 orders x leaf masks, optional stop), parse_node into a node with or without "
               "children; every node is destroyed at the end and every value must then have exactly one release.  non-trivial = the forest reached "
               "depth >= 2, >= 8 structure-changing operations were executed and at least one of {clone of depth >= 2, move that merges or "
-              "re-parents children, parse_node merge into existing children} happened; distinct = 64-bit hash of the operation list with arguments"),
+              "re-parents children, parse_node merge into existing children} happened; distinct = 64-bit hash of the operation list with arguments.  "
+              "C++ leg (c14_cxx): one history of 12..50 (80) operations over <= 20 mpt::node objects on the heap (node::create, mpt_node_new), in "
+              "harness storage (placement new, explicit destructor = member/automatic life time) and in real automatic storage (scope exit), "
+              "linked with the six C insert functions below a parent and in parent-less lists, destructor run at head/middle/tail/isolated, "
+              "set_metatype, reference assignment (shared values), data(), mpt_node_clear/destroy/unlink on them; non-trivial = >= 3 destructor "
+              "runs, at least one of a node inside a parent-less list, depth >= 1"),
         assumptions=SAN_BASE + ["admissible caller: a node handed to after/before/add/insert is unlinked and is not an ancestor of the position; "
                                 "swap/switch operands are not ancestor and descendant; move source and target lists are disjoint; "
                                 "the `first` argument of gnode_add/node_add is the list head (a later member only with position 0, as mpt_node_move itself does)",
